@@ -35,7 +35,7 @@ namespace {
       J b = J::array();
       const int n = int(rng.range(1, max_n));
       for (int i = 0; i < n; ++i) {
-        const int k = int(rng.below(d <= 0 ? 6 : 18));
+        const int k = int(rng.below(d <= 0 ? 6 : 20));
         J s = J::object();
         switch (k) {
         case 0:
@@ -94,6 +94,26 @@ namespace {
           s["k"] = J("block");
           s["body"] = body(d - 1, visible, 3);
           break;
+        case 18:
+        case 19: {
+          // the HOST writes a name (a registered function calling chai.add(var(v), name) while the script runs): like any
+          // write it must reach the innermost live binding of that name - directly, or inside a block that shadows it
+          std::vector<std::string> own;
+          for (auto &v : visible) {
+            if (v[0] == 'a') {
+              own.push_back(v); // plain declarations only (not loop counters, clause variables, eval-introduced names)
+            }
+          }
+          if (own.empty()) {
+            continue;
+          }
+          s["k"] = J("hostset");
+          s["name"] = J(rng.pick(own));
+          s["tag"] = J(next_tag++);
+          s["tag2"] = J(next_tag++);
+          s["shadowed"] = J(rng.chance(600));
+          break;
+        }
         case 7: {
           if (visible.empty()) {
             continue;
@@ -208,6 +228,13 @@ namespace {
     if (k == "gread") return "t(GLOB" + std::to_string(s.at("g").num() % N_GLOB) + ");";
     if (k == "block") return "{ var pad_b" + std::to_string(fnv1a(s.dump()) % 100000) + " = 0; " + render_body(s.at("body"), self) + "}";
     if (k == "shadow") return "{ var " + name() + " = " + tag() + "; t(" + name() + "); " + render_body(s.at("body"), self) + "t(" + name() + "); }";
+    if (k == "hostset") {
+      const std::string t2 = std::to_string(s.at("tag2").num());
+      if (s.at("shadowed").truthy()) {
+        return "{ var " + name() + " = " + tag() + "; host_set(\"" + name() + "\", " + t2 + "); t(" + name() + "); } t(" + name() + ");";
+      }
+      return "host_set(\"" + name() + "\", " + t2 + "); t(" + name() + ");";
+    }
     if (k == "loop") {
       const std::string v = s.at("var").str();
       const std::string init = s.at("opt").truthy() ? "0" : "zero()";
@@ -312,6 +339,30 @@ namespace {
         frame.emplace_back();
         exec_body(s.at("body"), self, frame, flags, n);
         frame.pop_back();
+      } else if (k == "hostset") {
+        const std::string nm = s.at("name").str();
+        auto write_innermost = [&](int64_t v) {
+          for (auto sc = frame.rbegin(); sc != frame.rend(); ++sc) {
+            for (auto &kv : *sc) {
+              if (kv.first == nm) {
+                kv.second = v;
+                return;
+              }
+            }
+          }
+          frame.back().emplace_back(nm, v);
+        };
+        if (s.at("shadowed").truthy()) {
+          frame.emplace_back();
+          frame.back().emplace_back(nm, s.at("tag").num());
+          write_innermost(s.at("tag2").num());
+          trace.push_back(lookup(frame, nm));
+          frame.pop_back();
+          trace.push_back(lookup(frame, nm));
+        } else {
+          write_innermost(s.at("tag2").num());
+          trace.push_back(lookup(frame, nm));
+        }
       } else if (k == "shadow") {
         frame.emplace_back();
         frame.back().emplace_back(s.at("name").str(), s.at("tag").num());
@@ -507,6 +558,7 @@ namespace {
       std::vector<int> fault_now(size_t(T) + 1, 0);
       e.add(fun([&out](int v) { out.traces[size_t(sim_self() + 1)].push_back(v); }), "t");
       e.add(fun([]() { return 0; }), "zero");
+      e.add(fun([&e](const std::string &n, int v) { e.add(var(v), n); }), "host_set");
       e.add(fun([&fault_now](int site) {
               sim_yield(7, nullptr);
               if (fault_now[size_t(sim_self() + 1)] == site) {
